@@ -70,6 +70,9 @@ type HandlerCfg struct {
 	RespB64  string `json:"respB64"`  // binary proto of the response / custom error
 	Msg      string `json:"msg"`      // message for plain / sebufError
 	Viol     [][2]string `json:"viol"` // violations for validationError
+	// Shared: the handler returns ONE response object per (type, bytes), the same pointer for every call
+	// (a handler that answers from a cache): marshalling a response must leave it as it was
+	Shared bool `json:"shared"`
 }
 
 // Op is one operation of a plan.
@@ -93,6 +96,7 @@ type Op struct {
 	Rpc        string     `json:"rpc"`
 	ReqType    string     `json:"reqType"`
 	ReqB64     string     `json:"reqB64"`
+	SharedReq  bool       `json:"sharedReq"`
 	ClientOpts ClientOpts `json:"clientOpts"`
 	CallOpts   CallOpts   `json:"callOpts"`
 	// canned server response for client-only ops (C11 client side)
@@ -162,6 +166,25 @@ func newMsg(full string) (proto.Message, error) {
 	return mt.New().Interface(), nil
 }
 
+// sharedMsg returns one message object per (type, bytes) for the whole process.
+var sharedMu sync.Mutex
+var sharedMsgs = map[string]proto.Message{}
+
+func sharedMsg(full, b string) (proto.Message, error) {
+	sharedMu.Lock()
+	defer sharedMu.Unlock()
+	k := full + "|" + b
+	if m, ok := sharedMsgs[k]; ok {
+		return m, nil
+	}
+	m, err := fromB64(full, b)
+	if err != nil {
+		return nil, err
+	}
+	sharedMsgs[k] = m
+	return m, nil
+}
+
 func fromB64(full, b string) (proto.Message, error) {
 	m, err := newMsg(full)
 	if err != nil {
@@ -228,6 +251,9 @@ func glueFn(ctx context.Context, svc, rpc string, req proto.Message) (proto.Mess
 	case "", "ok":
 		if h.RespType == "" {
 			return nil, errors.New("driver: no response configured")
+		}
+		if h.Shared {
+			return sharedMsg(h.RespType, h.RespB64)
 		}
 		m, err := fromB64(h.RespType, h.RespB64)
 		if err != nil {
@@ -506,6 +532,10 @@ func runCall(st *opState) {
 		}
 	}
 	req, err := fromB64(op.ReqType, op.ReqB64)
+	if op.SharedReq {
+		// a caller that builds a request once and issues it from several goroutines
+		req, err = sharedMsg(op.ReqType, op.ReqB64)
+	}
 	if err != nil {
 		st.emit("DriverError", "detail", err.Error())
 		return
